@@ -2,6 +2,8 @@
 (***************************************************************************)
 (* code -> spec validation for property C23 (records: see FTrace).         *)
 (*  text filters   inp = S(text), args by name, out = S(text) / I(n)       *)
+(*  replace        inp / old / new = S or M, x.ae = autoescape setting      *)
+(*  format         args a1 .. an (n <= 3): scalars, tuples ("t"), lists     *)
 (*  wordwrap       relation WrapOK                                         *)
 (*  int / float    inp = class label ("c"), x.text = the text of a small   *)
 (*                 numeric string or NoneV, x.milli = exact value of a     *)
@@ -22,6 +24,14 @@ VARIABLES tid, rej
 Txt(r) == r.inp.v
 A(r) == r.args
 
+\* format: the positional arguments a1 .. an in order
+ArgName(k) == CASE k = 1 -> "a1" [] k = 2 -> "a2" [] k = 3 -> "a3"
+FormatArgs(r) == [k \in 1..Cardinality(DOMAIN A(r)) |-> A(r)[ArgName(k)]]
+
+\* replace: the text the replacement works on / with, as ReplaceV chooses it
+ReplSafe(r) == r.x.ae.v /\ AnySafe(r.inp, A(r).old, A(r).new)
+ReplText(r, a) == IF ReplSafe(r) THEN EscapeV(a).v ELSE StrOf(a)
+
 ExpectedText(r) ==
     CASE r.f = "truncate" -> S(Truncate(Txt(r), A(r).length.v, A(r).killwords.v, A(r).end.v, A(r).leeway.v))
       [] r.f = "indent" -> S(Indent(Txt(r), IndentWidth(A(r).width), A(r).first.v, A(r).blank.v))
@@ -31,9 +41,9 @@ ExpectedText(r) ==
       [] r.f = "capitalize" -> S(Capitalize(Txt(r)))
       [] r.f = "upper" -> S(UpperS(Txt(r)))
       [] r.f = "lower" -> S(LowerS(Txt(r)))
-      [] r.f = "replace" -> S(Replace(Txt(r), A(r).old.v, A(r).new.v, A(r).count.v))
+      [] r.f = "replace" -> ReplaceV(r.x.ae.v, r.inp, A(r).old, A(r).new, A(r).count.v)
       [] r.f = "wordcount" -> I(WordCount(Txt(r)))
-      [] r.f = "format" -> S(Format(Txt(r), <<StrOf(A(r).arg)>>))
+      [] r.f = "format" -> FormatV(Txt(r), FormatArgs(r))
       [] r.f = "striptags" -> S(StripTags(Txt(r)))
       [] r.f = "urlencode" -> S(IF IsStr(r.inp) THEN UrlQuote(Txt(r))
                                 ELSE IF IsScalarV(r.inp) THEN UrlQuote(UrlTextOf(r.inp))
@@ -48,6 +58,9 @@ C23_Text(r) ==
     /\ r.f = "truncate" => TruncateBounded(Txt(r), A(r).length.v, A(r).leeway.v, r.out.v)
     /\ r.f = "indent" => IndentOnlyInserts(Txt(r), IndentWidth(A(r).width), r.out.v)
     /\ r.f = "urlencode" => r.out.t = "s" /\ UrlClean(r.out.v)
+    /\ r.f = "replace" => /\ r.out.t = (IF ReplSafe(r) THEN "m" ELSE "s")
+                          /\ ReplaceCountOK(ReplText(r, r.inp), StrOf(A(r).old), ReplText(r, A(r).new),
+                                            A(r).count.v, r.out.v)
 
 C23_Center(r) == r.out.t = "s" /\ CenterOK(Txt(r), A(r).width.v, r.out.v)
 
